@@ -3,7 +3,7 @@ READY = True
 
 SPEC = {
     "targets": ["Properties/C20.vo", "Run/C20.vo"],
-    "theorems": {"Properties.C20": ["C20_dependency_iff", "C20_details_exact", "C20_removed_detected", "C20_removed_reaches_check", "C20_removed_with_dependants_reported", "C20_dispatch_tables", "C20_nonvacuous"]},
+    "theorems": {"Properties.C20": ["C20_dependency_iff", "C20_details_exact", "C20_removed_detected", "C20_removed_detected_kind_explicit", "C20_other_kind_same_name", "C20_removed_reaches_check", "C20_removed_with_dependants_reported", "C20_dispatch_tables", "C20_nonvacuous"]},
     "harness_args": lambda tier: ["C20", "--n", 250 if tier == "quick" else 5000, "--histories", 200 if tier == "quick" else 3000,
                                   "--inproc", 30 if tier == "quick" else 300],
     "search_args": lambda tier: ["C20", "--n", 600, "--histories", 600, "--inproc", 20],
